@@ -310,9 +310,8 @@ package cluster_info
 //@   requires forall i int :: 0 <= i && i < len(podGroups) ==> podGroups[i] != nil
 //@   loop 1
 //@     invariant 0 - 1 <= rangeindex && rangeindex < len(podGroups)
-//@     invariant forall i int :: 0 <= i && i < len(assignedPodGroups) ==> assignedPodGroups[i] != nil && (exists j int :: 0 <= j && j < len(podGroups) && podGroups[j] == assignedPodGroups[i])
+//@     invariant forall i int :: 0 <= i && i < len(assignedPodGroups) ==> assignedPodGroups[i] != nil
 //@   ensures [noNil] forall i int :: 0 <= i && i < len(result) ==> result[i] != nil
-//@   ensures [subset] forall i int :: 0 <= i && i < len(result) ==> (exists j int :: 0 <= j && j < len(podGroups) && podGroups[j] == result[i])
 //@ end
 
 //@ func (*ClusterInfo).snapshotConfigMaps
@@ -364,7 +363,7 @@ package cluster_info
 //@ define podListed(m map[string][]*pod_info.PodInfo, p *v1.Pod) bool = exists n string, j int :: n in m && 0 <= j && j < len(m[n]) && m[n][j].Pod == p
 
 //@ func (*ClusterInfo).getNodeToPodInfosMap
-//@   props C12 C10 C14
+//@   props C12 C10 C14 C01
 //@   requires ciWF(c) && resource_info.vmWF(vectorMap) && brMapOK(bindRequests) && resource_info.claimsNonNil(draResourceClaims)
 //@   requires forall i int :: 0 <= i && i < len(allPods) ==> allPods[i] != nil
 //@   modifies vectorMap.namesToIndex[*], vectorMap.resourceNames
@@ -410,7 +409,7 @@ package cluster_info
 //@ define draOnlyNodeVectors(nodes map[string]*node_info.NodeInfo) bool = forall p *float64 :: (forall n in nodes :: !incells(p, nodes[n].AllocatableVector) && !incells(p, nodes[n].IdleVector)) ==> *p == old(*p)
 //@ define slicesNonNil(m map[string][]*resourceapi.ResourceSlice) bool = forall s string, r **resourceapi.ResourceSlice :: s in m && incells(r, m[s]) ==> *r != nil
 //@ func (*ClusterInfo).populateDRAGPUs
-//@   props C14 C10
+//@   props C14 C01 C10
 //@   requires ciWF(c) && snapNodeOK(nodes)
 //@   modifies family(nodes[""].Allocatable.gpus), family(nodes[""].AllocatableVector[*]), family(nodes[""].HasDRAGPUs)
 //@   loop 1
